@@ -111,7 +111,9 @@ Not decided: enumerations larger than the evaluated domain (the numbering code i
     ctx.assumptions = vec!["nom's many0 / fold_many0 deliver the parsed enumerals left to right".into()];
     ctx.rule("abstract evaluation of the numbering code over all enumerations of <=4 root items and <=3 additions on {implicit,-1,0,1,2,5}, compared with the X.680 clause 20 oracle; def-use of the additions' start value; template checks");
     let consts = const_resolver(m);
-    let ev = Evaluator { consts: &consts, call_hook: &crate::eval::no_hook, inline: None };
+    // helper fns the numbering code may be split into are followed (every uniquely named free fn of the crate)
+    let inl = inline_all(m, &[]);
+    let ev = Evaluator { consts: &consts, call_hook: &crate::eval::no_hook, inline: Some(&inl) };
 
     conversion_keeps_order(m, ctx);
     let Some(body) = anchor_fn(m, ctx, "C14.start", None, "enumerated_body", Some("lexer::enumerated")) else { return };
